@@ -1138,6 +1138,15 @@ func c13Corpus() []string {
 	all("numerİc", []string{"10", "9", "1a"})
 	all("valué", []string{"a", "b"})
 	all("contextual", []string{"mon\xff", "mon", "tue"})
+	// value: ties (equal totals) and negative totals, every direction, every arrival order
+	for _, nm := range []string{"value", "value:asc", "value:desc", "value:reverse", "value:rev", "VALUE:ASC", "text:desc", "numeric:reverse"} {
+		vs := c13MakeSet(rr, []string{"a", "b", "c", "d", "e"})
+		vs.values = "-3,0,5,0,-3"
+		for i := 0; i < 12; i++ {
+			out = append(out, vs.line("sort", nm, c13IntsField(c13Perm(rr, 5))))
+		}
+		out = append(out, vs.line("sortspec", nm, "0,1,2,3,4"), vs.line("agg", nm, "4,3,2,1,0"), vs.line("axioms", nm, ""))
+	}
 	out = append(out, "lowtab")
 	for _, k := range []string{"frİday", "FRİDAY", "K", "weeK", "İ", "ı", "\xc4", "\xb0\xc4", "\xe2\x84", "\xe2\x84\xaa\xe2\x84\xaa", "É", "é", "\xff", "a\xffB",
 		"\xc1\x81", "\xed\xa0\x80", "\xf4\x90\x80\x80", "ẞ", "Σ", "ǅ", "𐐀", "MONDAY", "monday", "", "\x00A", "�"} {
